@@ -54,6 +54,11 @@ type hfs struct {
 }
 
 func heldPath(p string) bool { return strings.HasPrefix(p, "/h") }
+func (h *hfs) setHold(p string, d time.Duration) {
+	h.mu.Lock()
+	h.hold[p] = d
+	h.mu.Unlock()
+}
 func (h *hfs) enter(p string) func() {
 	if !heldPath(p) {
 		return func() {}
@@ -644,15 +649,15 @@ func runC17(s sched17, kind string, idx int) Case {
 				switch i % 3 {
 				case 1: // LOOKUP of a file nobody has looked up yet: allocates a handle when the backend answers
 					proc, body = 3, (&nfsx.Req{Proc: "LOOKUP", H: rootH, Name: []byte(name)}).Encode()
-					hf.hold["/"+name] = hold
+					hf.setHold("/"+name, hold)
 				case 2: // MKDIR: a backend mutation when the held call resumes
 					mode := uint32(0755)
 					proc, body = 9, (&nfsx.Req{Proc: "MKDIR", H: rootH, Name: []byte(name + "d"), Sa: nfsx.Sattr{Mode: &mode}}).Encode()
-					hf.hold["/"+name+"d"] = hold
+					hf.setHold("/"+name+"d", hold)
 				default: // WRITE
 					fh, _ := nfs.VerifLTSHandleFor("/" + name)
 					proc, body = procWrite, writeBody(fh, 0, []byte("late"))
-					hf.hold["/"+name] = hold
+					hf.setHold("/"+name, hold)
 				}
 				cc.xid++
 				if err := sendCall(cc.c, cc.xid, progNFS, versNFS, proc, body); err != nil {
